@@ -25,7 +25,7 @@ import (
 	"verif/harness/xt"
 )
 
-const c14Rule = "rapid over (endpoint: SSO via query, SSO via form with SAMLEncoding=DEFLATE, logout via form, logout via query) x (inflated size S from 1 MiB to 256 MiB in the quick tier, to 1 GiB in the thorough tier) x (padding placed in a comment, in element text, in an attribute value, or after the document element) x (padding byte) x (wrapper otherwise valid / issuer unregistered): a DEFLATE stream of about S/1000 bytes is sent as one request, alone, on one goroutine; runtime.MemStats.TotalAlloc is read before and after ServeHTTP. x (compression level: fastest, about 800:1, or best, about 1030:1 - the format's maximum) x (one DEFLATE stream, or the message cut into 4 / 9 / 40 streams each finished on its own) x (padding of one repeated byte, or - on the form endpoints - text that compresses only 10:1, so that the payload itself is megabytes): Oracle: the allocation during the call is at most 160 MiB plus six times the bytes on the wire whatever S is, and a request with S >= 32 MiB (half an order of magnitude above the 10 MB the statement names) is not accepted (no CreateAuthRequest, no Success). Sizes below 32 MiB are executed and reported, not asserted (the statement fixes only the order of magnitude of the cap). The message parameter may occur up to 40 times, every occurrence spelled differently and inflating to the case's size. Non-trivial (sizes summed over occurrences): S >= 32 MiB with a compressed size below 1 MiB. Distinct by (endpoint, placement, size, wrapper validity)."
+const c14Rule = "rapid over (endpoint: SSO via query, SSO via form with SAMLEncoding=DEFLATE, logout via form, logout via query) x (inflated size S from 1 MiB to 256 MiB in the quick tier, to 1 GiB in the thorough tier) x (padding placed in a comment, in element text, in an attribute value, or after the document element) x (padding byte) x (wrapper otherwise valid / issuer unregistered): a DEFLATE stream of about S/1000 bytes is sent as one request, alone, on one goroutine; runtime.MemStats.TotalAlloc is read before and after ServeHTTP. x (compression level: fastest, about 800:1, or best, about 1030:1 - the format's maximum) x (one DEFLATE stream, or the message cut into 4 / 9 / 40 streams each finished on its own) x (padding of one repeated byte, or - on the form endpoints - text that compresses only 10:1, so that the payload itself is megabytes): Oracle: the allocation during the call is at most 160 MiB plus six times the bytes on the wire whatever S is, and a request with S >= 32 MiB (half an order of magnitude above the 10 MB the statement names) is not accepted (no CreateAuthRequest, no Success). Sizes below 32 MiB are executed and reported, not asserted (the statement fixes only the order of magnitude of the cap). A message may be wrapped in up to 25 layers of DEFLATE (each inflating to the next, never accepted), and may arrive right after an accepted message of 8 MiB that compressed a thousandfold. The message parameter may occur up to 40 times, every occurrence spelled differently and inflating to the case's size. Non-trivial (sizes summed over occurrences): S >= 32 MiB with a compressed size below 1 MiB. Distinct by (endpoint, placement, size, wrapper validity)."
 
 type C14Case struct {
 	Endpoint  string `json:"endpoint"` // sso-query | sso-form | slo-form | slo-query
@@ -42,6 +42,35 @@ type C14Case struct {
 	Repeat int `json:"repeat,omitempty"`
 	// Simultaneous > 1: that many oversized messages (one per inflating endpoint, in turn) are served at the same moment
 	Simultaneous int `json:"simultaneous,omitempty"`
+	// Layers > 1: the message is wrapped that many times: each DEFLATE stream inflates to the next one (stored blocks, SizeMiB
+	// each), the innermost to the padded document. A reader inflates once and finds no XML.
+	Layers int `json:"layers,omitempty"`
+	// Warm: a moment ago the same provider accepted a message of 8 MiB that compressed a thousandfold (whatever it learned
+	// from that, the next message is bounded like any other)
+	Warm bool `json:"after_an_accepted_highly_compressed_message,omitempty"`
+}
+
+// c14Layered wraps the inflated form of the case's message (SizeMiB of padding) into Layers-1 stored-block DEFLATE streams and
+// compresses the outermost for real.
+func c14Layered(c C14Case, spec world.Spec, now time.Time) []byte {
+	inner := c
+	inner.Layers = 0
+	data, err := inflateAll(c14Payload(inner, spec, now))
+	if err != nil {
+		panic("harness: " + err.Error())
+	}
+	for i := 1; i < c.Layers; i++ {
+		var buf bytes.Buffer
+		w, _ := flate.NewWriter(&buf, flate.NoCompression)
+		w.Write(data)
+		w.Close()
+		data = buf.Bytes()
+	}
+	var out bytes.Buffer
+	w, _ := flate.NewWriter(&out, flate.BestSpeed)
+	w.Write(data)
+	w.Close()
+	return out.Bytes()
 }
 
 var (
@@ -206,7 +235,7 @@ func genC14Case(t *rapid.T) C14Case {
 	if ev.Tier() == "thorough" {
 		sizes = append(sizes, 384, 512, 768, 1024, 1024)
 	}
-	return C14Case{
+	c := C14Case{
 		Endpoint:  rapid.SampledFrom([]string{"sso-query", "sso-form", "slo-form", "slo-query", "sso-query", "sso-form", "slo-form", "slo-query", "attr-http-encoded", "sso-http-encoded", "slo-http-encoded"}).Draw(t, "endpoint"),
 		SizeMiB:   pick(t, "size", sizes),
 		Placement: rapid.SampledFrom([]string{"comment", "text", "attribute", "after-root", "xmldecl"}).Draw(t, "placement"),
@@ -216,7 +245,12 @@ func genC14Case(t *rapid.T) C14Case {
 		Best:      rapid.Bool().Draw(t, "best"),
 		Streams:   rapid.SampledFrom([]int{0, 0, 0, 4, 9, 40}).Draw(t, "streams"),
 		Repeat:    rapid.SampledFrom([]int{0, 0, 0, 0, 6, 40}).Draw(t, "repeat"),
+		Warm:      rapid.IntRange(0, 2).Draw(t, "warm") == 0,
 	}
+	if rapid.IntRange(0, 5).Draw(t, "layered") == 0 && !strings.HasSuffix(c.Endpoint, "-http-encoded") {
+		c.Layers, c.SizeMiB, c.Streams, c.Container, c.Repeat = rapid.SampledFrom([]int{2, 6, 25}).Draw(t, "layers"), rapid.SampledFrom([]int{1, 8, 9}).Draw(t, "layersize"), 0, "", 0
+	}
+	return c
 }
 
 const c14AllocLimit = 160 << 20
@@ -232,6 +266,9 @@ func c14Run(c C14Case) (vs []*ev.Violation, alloc uint64, compressed int, accept
 	spec := stdSpec()
 	now := time.Now()
 	payload := c14Payload(c, spec, now)
+	if c.Layers > 1 && !strings.HasSuffix(c.Endpoint, "-http-encoded") {
+		payload = c14Layered(c, spec, now)
+	}
 	compressed = len(payload)
 	b64 := base64.StdEncoding.EncodeToString(payload)
 	msg := qesc(b64)
@@ -267,6 +304,16 @@ func c14Run(c C14Case) (vs []*ev.Violation, alloc uint64, compressed int, accept
 		hr = obs.HTTPReq{Method: "POST", Path: route, ContentType: "application/x-www-form-urlencoded", Body: "SAMLRequest=" + msg + "&RelayState=rs&SAMLEncoding=" + qesc(spsim.EncodingDeflate)}
 	}
 	w := mustBuild(spec)
+	if c.Warm {
+		wc := C14Case{Endpoint: "sso-form", SizeMiB: 8, Placement: "comment", Pad: "A", Valid: true, Best: true}
+		wp := c14Payload(wc, spec, now)
+		obs.Do(w.Handler, obs.HTTPReq{Method: "POST", Path: spec.IdP.Route("sso"), ContentType: "application/x-www-form-urlencoded",
+			Body: "SAMLRequest=" + qesc(base64.StdEncoding.EncodeToString(wp)) + "&RelayState=rs&SAMLEncoding=" + qesc(spsim.EncodingDeflate)})
+		if ok, _ := createCalls(w); len(ok) != 1 {
+			panic("harness: the warm-up message of 8 MiB was not accepted")
+		}
+		w.Store.ResetLog()
+	}
 	runtime.GC()
 	var m0, m1 runtime.MemStats
 	runtime.ReadMemStats(&m0)
@@ -295,6 +342,10 @@ func c14Run(c C14Case) (vs []*ev.Violation, alloc uint64, compressed int, accept
 	// With several streams only the first one is the message for an inflater that follows the format (what comes after the
 	// final block is trailing data it never looks at): the acceptance clause is then about the size of that first stream.
 	effective := c.SizeMiB
+	if c.Layers > 1 {
+		// what inflates to another DEFLATE stream is no message at all
+		effective = c14AcceptLimitMiB
+	}
 	if c.Streams > 1 {
 		effective = (c.SizeMiB + c.Streams - 1) / c.Streams
 	}
@@ -369,6 +420,12 @@ func TestC14Ladder(t *testing.T) {
 			for _, size := range []int{8, 9} {
 				cases = append(cases, C14Case{Endpoint: ep, SizeMiB: size, Placement: "comment", Pad: "A", Valid: true, Best: true, Repeat: 40})
 			}
+		}
+		// messages wrapped in layers of DEFLATE, and oversized messages right after an accepted one that compressed a thousandfold
+		for _, ep := range []string{"sso-query", "sso-form", "slo-form", "slo-query"} {
+			cases = append(cases, C14Case{Endpoint: ep, SizeMiB: 9, Placement: "comment", Pad: "A", Valid: true, Layers: 25},
+				C14Case{Endpoint: ep, SizeMiB: 256, Placement: "comment", Pad: "A", Valid: true, Best: true, Warm: true},
+				C14Case{Endpoint: ep, SizeMiB: 256, Placement: "after-root", Pad: " ", Valid: false, Warm: true})
 		}
 		// low compression ratio: the payload itself is megabytes (only a form body carries that much)
 		for _, ep := range []string{"sso-form", "slo-form"} {
